@@ -114,6 +114,21 @@ func (l *Lin) Add(o *Lin) *Lin       { return comb(l, 1, o, 1) }
 func (l *Lin) Sub(o *Lin) *Lin       { return comb(l, 1, o, -1) }
 func (l *Lin) Scale(k int64) *Lin    { return comb(l, k, &Lin{}, 0) }
 func (l *Lin) AddConst(k int64) *Lin { return comb(l, 1, &Lin{c: k}, 1) }
+// DivExact returns l/k when every coefficient and the constant are multiples of k.
+func (l *Lin) DivExact(k int64) (*Lin, bool) {
+	if l.bad || k == 0 || l.c%k != 0 {
+		return nil, false
+	}
+	r := &Lin{c: l.c / k, vs: append([]int(nil), l.vs...), cs: make([]int64, len(l.cs))}
+	for i, c := range l.cs {
+		if c%k != 0 {
+			return nil, false
+		}
+		r.cs[i] = c / k
+	}
+	return r, true
+}
+
 func (l *Lin) IsConst() bool         { return !l.bad && len(l.vs) == 0 }
 func (l *Lin) Bad() bool             { return l.bad }
 
